@@ -31,6 +31,14 @@ def groups(n, seed):
                   lamb_max=[3.3, 6.5, 13.0, 20.0, 50.0][i % 5], iteration_limit=60, display_interval=1e9)
         gs.append({"tag": "C15.lambmax", "runs": [{"prob": ("repo", ["rosenbrock", "hs71", "hs71c"][i % 3]), "params": pk,
                                                    "x0": [[-1.2, 1.0], None, None][i % 3]}]})
+    # the Exact controller halves lamb on every accepted step without a floor: lamb_min within reach, so that the hand-over
+    # of the returned lamb to the next trial (dt = 1/lamb) is also observed below lamb_min
+    for i in range(max(8, n // 10)):
+        lm = [0.25, 0.1, 0.5, 1.0][i % 4]
+        pk = dict(step_control_type=[StepControlType.Exact, StepControlType.Exact, StepControlType.DistanceRatio][i % 3],
+                  lamb_min=lm, lamb_init=[1.0, lm][(i // 4) % 2], iteration_limit=30, display_interval=1e9)
+        gs.append({"tag": "C15.lambmin", "runs": [{"prob": family_spec(3 * i + 1, rng) if i % 2 else ("repo", ["tame", "hs71"][(i // 2) % 2]),
+                                                   "params": pk}]})
     return gs
 
 
